@@ -77,6 +77,13 @@ def run(ctx):
         jobs.append(lambda c=c, g=g, i=i: gen("bondwalk", "Gen_StakingBond.cfg", c, g,
                                               simulate="num=%d" % ctx.pick(150, 600), depth=17,
                                               seed=ctx.seed * 100 + 70 + i, timeout=1500))
+    # 2d. coinciding timers: directed walks in which an unbond and an unstake (of one account or of two
+    #     different accounts) expire at exactly the same height; only behaviours with such a height are emitted
+    for i in range(ctx.pick(1, 3)):
+        c, g = consts(["a", "b"], ["p"], 2, [1, 2], unbondperiod=1 + (i % 2), unbondmax=2, maxtx=4, depth=10)
+        jobs.append(lambda c=c, g=g, i=i: gen("coin", "Gen_StakingCoin.cfg", c, g,
+                                              simulate="num=%d" % ctx.pick(1000, 2500), depth=11,
+                                              seed=ctx.seed * 100 + 80 + i, timeout=1500))
     nw3 = ctx.pick(100, 900)
     for i in range(ctx.pick(1, 3)):
         c, g = consts(["a", "b", "c"], ["p"], 3, [1, 2, 3], slotmax=3, unbondperiod=2, unbondmax=2, maxtx=3,
@@ -126,7 +133,7 @@ def run(ctx):
     return ctx.finish(
         rule="a behaviour = one TLC-generated sequence of staking transactions and block ends (every history of "
              "effective SetStake calls/block ends of one account up to depth %d by BFS, plus %d-step random walks of the "
-             "full model with 2 and 3 accounts and of the bond/unbond slice), cut after its last complete block; distinct by its transaction "
+             "full model with 2 and 3 accounts of the bond/unbond slice, and directed walks in which an unbonding and an unstaking timer fire at the same height), cut after its last complete block; distinct by its transaction "
              "sequence; non-trivial if at least one transaction is accepted and changes state; %d real blocks were "
              "executed and C34's invariants evaluated on all accounts of the simulated network after every model block"
              % (d, wl, blocks),
